@@ -1,7 +1,7 @@
 // Copyright (c) 2024, Qualcomm Innovation Center, Inc. All rights reserved.
 // SPDX-License-Identifier: BSD-3-Clause
 
-use idlc_codegen_c::globals::{emit_struct_once, local_structs};
+use idlc_codegen_c::globals::{emit_struct_once, emit_structs_used_by, local_structs};
 use idlc_codegen_c::types::{change_primitive, const_expression};
 use idlc_mir::Node;
 
@@ -36,6 +36,7 @@ impl idlc_codegen::SplitInvokeGenerator for Generator {
                     emit_struct_once(s.as_ref(), &local, &mut emitted, &mut result);
                 }
                 Node::Interface(i) => {
+                    emit_structs_used_by(i, &local, &mut emitted, &mut result);
                     result.push_str(&emit_interface_impl(i));
                 }
             }
